@@ -1248,8 +1248,9 @@ package keyvalue
 //@   propagates [C14 C01] setFileTxn
 //@   propagates [C14] ReadDirNames
 //@   propagates [C14] Data
+//@   propagates [C14] Commit
 //@   loop 1 modifies mapOf(ms(fs).records), held(ms(fs).mu), world()
-//@   loop 1 invariant "children-so-far-moved" !failed("Rename") && !failed("setFile") && !failed("setFileTxn") && !failed("ReadDirNames") && !failed("Data")
+//@   loop 1 invariant "children-so-far-moved" !failed("Rename") && !failed("setFile") && !failed("setFileTxn") && !failed("ReadDirNames") && !failed("Data") && !failed("Commit") && !called("Commit")
 //@   loop 1 invariant "inv" fsOK(fs) && VP(oldname) && VP(newname) && rangeindex >= -1 && rangeindex < max(len(files), 1) && (len(files) > 0 || rangeindex == -1) && implies(isMem(fs), world() == old(world()))
 //@   ensures "gate" [C04 C05] implies(isMem(fs) && !VP(oldname) || !VP(newname), linkErr(err, oldname, newname) && errIs(err, hackpadfs.ErrInvalid) && memSame(fs) && world() == old(world()))
 //@   ensures "root" [C03] implies(isMem(fs) && rnValid(oldname, newname) && oldname == "." && newname != ".", linkErr(err, oldname, newname) && memSame(fs))
@@ -1274,6 +1275,7 @@ package keyvalue
 //@   ensures "mem-world" implies(isMem(fs), world() == old(world()))
 //@   ensures "gate-any-world" [C04 C05] implies(!VP(oldname) || !VP(newname), linkErr(err, oldname, newname) && errIs(err, hackpadfs.ErrInvalid) && world() == old(world()))
 //@   ensures "serial-source-lookup-error" [C14] implies(!isMem(fs) && VP(oldname) && VP(newname) && old(storeGetErr(fsStore(fs), oldname)) != nil, err != nil)
+//@   ensures "op-errors-surface" [C14] implies(called("Commit") && result("Commit", 1) == nil && err == nil, forall(i, 0, len(result("Commit", 0)), result("Commit", 0)[i].Err == nil))
 //@   ensures "inv" fsOK(fs)
 //@   nopanic
 
